@@ -8,8 +8,9 @@ Pipeline under test (only public API, observed at the stated points):
     rsys.upper_conc_bounds(c0)            (the "elemental upper bound" the Euler step is advertised against)
 Oracles (vlib/gen_c06.py, no chempy): exact matrix exponential of the first-order network assembled from the JSON
 description (integer fixed-point scaling-and-squaring, checked against mpmath.expm to 1e-38), own Riccati closed
-forms for A + B -> C, A + B <-> C, 2 A -> C, 2 A <-> C at 60 digits, exact (Fraction) mass-action right-hand side
-and elemental supply bounds.
+forms for A + B -> C, A + B <-> C, 2 A -> C, 2 A <-> C, the autocatalytic step A + B -> 2 B (<-> ; logistic) and the
+catalysed step A + C -> B + C (<->) at 60 digits, exact (Fraction) mass-action right-hand side (inactive co-reactants
+'(n Y)' are consumed but do not enter the rate) and elemental supply bounds.
 """
 from fractions import Fraction
 
@@ -28,18 +29,31 @@ RULE = ("Reaction systems are JSON descriptions built by construction (species =
         "decades (12 in 'net_wide'), c0 in {0, 1, 10**[-3,3]}, 3-8 output times log-uniform from 0.01/k_max to "
         "10/k_min after t0.  Non-trivial (net): the network has a branch or a cycle and >= 3 decades between its "
         "fastest and slowest constant and at least one reactant is initially present; (bimol): a reversible step, or "
-        "a0 = b0, or a dimerisation.  Distinct by case digest.")
+        "a0 = b0, or a dimerisation, or a species on both sides of the step (A + B -> 2 B with A, B isomers from a "
+        "table of 6 pairs, either of them the autocatalyst; A + C -> B + C with one of 6 catalysts), both also with the "
+        "reverse step.  (net_inact): the left-hand side of a first-order step is rewritten as well, one entry is the "
+        "active reactant X, the others are inactive co-reactants written '(Y)', '(2 Y)', '(2 * Y)' or '(Y) + (Y)' "
+        "before or after X (Y = X allowed; a Y != X - a reagent - is never an active reactant, so the network stays "
+        "linear with d[Y]/dt = -n k [X] and everything else independent of [Y]); the reagent's c0 = exact total "
+        "consumption up to the last output time x {1, 2, 10, 1000} + a drawn extra amount, so that the exact solution "
+        "stays >= 0; output times end at 10/k of the fastest reagent-consuming step; the Euler-step clause is judged "
+        "at (t0, c0) and at a second state with scarce reagents (theta x consumption rate x lower estimate of the step "
+        "the other species allow, theta in {.5, .1, .9, .01, .999, 3}).  Non-trivial (net_inact): a reagent is consumed "
+        "by a step whose active reactant is initially present.  Distinct by case digest.")
 ASSUMPTIONS = [
     "scipy's LSODA (through pyodesys 0.14.7) is the delegated solver; its failure or an unsuccessful info flag is "
     "counted as inconclusive",
     "vlib/gen_c06.py: integer fixed-point exp(M t) (validated against mpmath.expm, 1e-38) and Riccati closed forms "
     "(validated against LSODA at rtol 1e-12) are the exact solutions",
-    "hand-written compositions of the 13 bimolecular triples and a 6-element symbol table",
+    "hand-written compositions of the 13 bimolecular triples, 6 isomer pairs, 6 catalysts and a 6-element symbol "
+    "table",
+    "a zeroth-order (inactive) co-reactant can be driven negative by the model itself; only systems whose exact "
+    "solution stays non-negative over the output times are integrated (supply sized from the exact consumption)",
 ]
 
 RTOL = 1e-10          # requested from the solver; atol = 1e-10 * S
 AGREE = 1e-6          # |yout - exact| <= AGREE * S       (S = largest elemental total concentration)
-AGREE_WIDE = 1e-5     # the same for 'net_wide' (12 decades of time scales, see TOLERANCES)
+AGREE_WIDE = 1e-5     # the same for 'net_wide' (12 decades of time scales) and 'net_inact', see TOLERANCES
 ADMIT = 1e-7          # -ADMIT*S <= yout <= elemental bound + ADMIT*S
 TOLERANCES = {
     "requested": "rtol = 1e-10, atol = 1e-10*S, S = max over elements of the total elemental concentration of c0",
@@ -50,7 +64,12 @@ TOLERANCES = {
                  "(12 above 1e-8; largest of a separately measured 3 200-case sample: 2.8e-8 at nfev = 97, i.e. LSODA's "
                  "error control rather than accumulation over many steps) - "
                  "hence one more decade for 'net_wide'; >= 100x slack everywhere.  A rate mis-scaled by a "
-                 "stoichiometric factor moves yout by O(S).",
+                 "stoichiometric factor moves yout by O(S).  'net_inact': 1e-5*S (24 000 networks with inactive "
+                 "co-reactants: worst 2.6e-8*S, 5 above 2e-8 - reagent-fed growth, horizon capped at exp(3)).  "
+                 "Autocatalytic steps A + B -> 2 B ('bimol'): 1e-6*S*max(1, T/w0), T = a0 + b0, w0 = initial "
+                 "autocatalyst - the condition number of logistic growth from a seed (9 000 systems: worst deviation "
+                 "1e-5*S at T/w0 = 7e5, i.e. ~1e-10*S*T/w0 = the absolute local tolerance times the amplification; "
+                 "normalised all <= 1e-9); catalysed steps: 4 500 systems all <= 1e-9*S.",
     "admissible": "yout >= -1e-7*S and yout <= min_e(supply_e/atoms_e) + 1e-7*S (3 decades above atol; calibration, "
                   "labels 'outside<=1e-k': largest excursion in 70 000 systems <= 1e-9*S, 9 above 1e-10*S)",
     "xout": "|xout - tout| <= 1e-12*max(1,|tout|)",
@@ -95,15 +114,17 @@ def _labels(case, ctx, S):
               "decades:%s" % ("<1" if stc["decades"] < 1 else "1-3" if stc["decades"] < 3 else
                               "3-6" if stc["decades"] < 6 else ">=6"),
               "zeros=%d" % min(stc["zeros"], 3), "chain=%d" % min(stc["chain"], 5))
-    for k in ("branch", "cycle", "stoich2", "charged", "distinct_bounds"):
+    for k in ("branch", "cycle", "stoich2", "charged", "distinct_bounds", "both_sides", "self_inact"):
         if stc[k]:
             ctx.label(k)
+    if stc["inact_rxns"]:
+        ctx.label("reagents=%d" % min(stc["reagents"], 3), "inact_rxns=%d" % min(stc["inact_rxns"], 4))
     if case["t0"] != 0:
         ctx.label("t0!=0")
     return stc
 
 
-def _euler_clause(case, ctx, cb, t, state, keys, text, where):
+def _euler_clause(case, ctx, cb, t, state, keys, text, where, tag=None):
     """h = max_euler_step_cb(t, state): state + h*f_exact(state) must stay inside [0, elemental bound of `state`].
 
     At (t0, c0) the step must also be a step, 0 < h <= 1 (c0 entries are 0 or within [1e-3, 1e3], so neither y/|f| nor
@@ -122,7 +143,8 @@ def _euler_clause(case, ctx, cb, t, state, keys, text, where):
         hf = float("nan")
     if not (0 < hf <= 1):
         if where == "t0" or hf > 1 or hf != hf:
-            ctx.fail("euler_step_not_in_(0,1]", text=text, h=repr(h), state=yd, at=where, f=[float(x) for x in f])
+            ctx.fail("euler_step_not_in_(0,1]", text=text, h=repr(h), state=yd, at=tag or where,
+                     f=[float(x) for x in f])
         else:
             ctx.label("euler_%s:h<=0" % where)
         return
@@ -135,20 +157,28 @@ def _euler_clause(case, ctx, cb, t, state, keys, text, where):
     for i in range(n):
         y1 = y[i] + hq * f[i]
         if y1 < -eps:
-            ctx.fail("euler_step_negative", text=text, species=keys[i], h=hf, state=yd, at=where, after=float(y1),
+            ctx.fail("euler_step_negative", text=text, species=keys[i], h=hf, state=yd, at=tag or where, after=float(y1),
                      eps=float(eps), f=float(f[i]))
             return
         if y1 > bounds[i] + eps * W:
-            ctx.fail("euler_step_above_bound", text=text, species=keys[i], h=hf, state=yd, at=where, after=float(y1),
+            ctx.fail("euler_step_above_bound", text=text, species=keys[i], h=hf, state=yd, at=tag or where, after=float(y1),
                      bound=float(bounds[i]), eps=float(eps))
             return
-    ctx.label("euler_%s:%s" % (where, "h=1" if hf == 1 else "h<1"))
+    ctx.label("euler_%s:%s" % (tag or where, "h=1" if hf == 1 else "h<1"))
+    if tag is not None:
+        # which species limits the exact step (smallest y/|f| among decreasing species, if below 1)?
+        lim = [(y[i] / -f[i], i) for i in range(n) if f[i] < 0]
+        who = "none"
+        if lim and min(lim)[0] < 1:
+            who = "reagent" if min(lim)[1] in G.foreign_reagents(case) else "active_reactant"
+        ctx.label("euler_%s:limited_by_%s" % (tag, who))
 
 
-def judge(case, ctx, exact, kind, agree=None):
-    """Shared oracle: `exact` = list (per output time) of per-species exact concentrations (Fractions/floats)."""
+def judge(case, ctx, exact, kind, agree=None, amp=1.0):
+    """Shared oracle: `exact` = list (per output time) of per-species exact concentrations (Fractions/floats).
+    `amp` >= 1: factor by which the problem itself amplifies a perturbation (see TOLERANCES['agreement'])."""
     import numpy as np
-    agree = AGREE if agree is None else agree
+    agree = (AGREE if agree is None else agree) * amp
     n = len(case["species"])
     keys = [s["key"] for s in case["species"]]
     c0 = [Fraction(x) for x in case["c0"]]
@@ -196,6 +226,11 @@ def judge(case, ctx, exact, kind, agree=None):
         ctx.fail("max_euler_step_cb_missing", text=text)
     else:
         _euler_clause(case, ctx, cb, case["t0"], [float(v) for v in case["c0"]], keys, text, "t0")
+        if case.get("c0_euler") is not None:
+            # the same clause at a second initial state (scarce inactive co-reactants): every entry is 0 or within
+            # [1e-19, 1e3] and the limiting y/|f| is >= 1e-2 * 1/(3 * sum k) > 1e-7, so h cannot round to 0 here either
+            _euler_clause(case, ctx, cb, case["t0"], [float(v) for v in case["c0_euler"]], keys, text, "t0",
+                          tag="scarce")
 
     # ---- integration -----------------------------------------------------------------------------------------
     res = sut(odesys.integrate, np.array(tout, dtype=float), dict(c0d), integrator="scipy",
@@ -254,7 +289,7 @@ def judge(case, ctx, exact, kind, agree=None):
             if w <= 10.0 ** -k:
                 return k
         return 5
-    ctx.label("dev<=1e-%d" % bucket(worst), "outside<=1e-%d" % bucket(worst_adm))
+    ctx.label("dev<=1e-%d" % bucket(worst / amp), "outside<=1e-%d" % bucket(worst_adm))
 
 
 def check_net(case, ctx, agree=None):
@@ -271,19 +306,54 @@ def check_net_wide(case, ctx):
     check_net(case, ctx, AGREE_WIDE)
 
 
+def check_net_inact(case, ctx):
+    """First-order networks with inactive co-reactants '(n Y)': still linear, oracle exp(M(t-t0)) c0 with
+    M[Y][X] -= n k; Euler-step clause also at the scarce-reagent state case['c0_euler']."""
+    G.validate(case)
+    c0 = [Fraction(x) for x in case["c0"]]
+    S = G.scale(case, c0)
+    stc = _labels(case, ctx, S)
+    reag = set(G.foreign_reagents(case))
+    for y in reag:      # domain: nothing may depend on a reagent (never an active reactant)
+        assert all(i != y for r in case["rxns"] for i, _ in r["reac"]), "reagent used as active reactant"
+    ctx.nontrivial(any(case["c0"][r["reac"][0][0]] > 0 and any(j in reag for j, _ in r.get("inact", []))
+                       for r in case["rxns"]))
+    exact = G.linear_solution(case)
+    # domain: the exact solution is non-negative at every output time (the generator sizes the reagent supply from the
+    # exact consumption; 2**-90 relative accuracy of the fixed-point exponential)
+    assert all(v >= -S * Fraction(1, 10 ** 20) for row in exact for v in row), "exact solution negative: outside domain"
+    if reag and any(min(float(row[y]) for row in exact) <= 1e-6 * float(S) for y in reag):
+        ctx.label("reagent_nearly_exhausted")
+    judge(case, ctx, exact, "expm", AGREE_WIDE)
+
+
 def check_bimol(case, ctx):
     G.validate(case)
     c0 = [Fraction(x) for x in case["c0"]]
     _labels(case, ctx, G.scale(case, c0))
     fw = case["rxns"][0]
     rev = len(case["rxns"]) == 2
-    dimer = len(fw["reac"]) == 1
+    kind = G.bimol_kind(case)
+    dimer = kind == "dimer"
     equal = (not dimer) and case["c0"][fw["reac"][0][0]] == case["c0"][fw["reac"][1][0]]
-    ctx.label("rev" if rev else "irrev", "2A" if dimer else ("A+B,a0=b0" if equal else "A+B"),
-              "p0=0" if case["c0"][fw["prod"][0][0]] == 0 else "p0>0")
-    ctx.nontrivial(rev or equal or dimer)
+    shape = {"dimer": "2A", "assoc": "A+B", "auto": "A+B->2B", "cat": "A+C->B+C"}[kind]
+    ctx.label("rev" if rev else "irrev", shape + (",a0=b0" if equal else ""))
+    if kind in ("assoc", "dimer"):
+        ctx.label("p0=0" if case["c0"][fw["prod"][0][0]] == 0 else "p0>0")
+    elif any(v == 0 for v in case["c0"]):
+        ctx.label(shape + ",zero_in_c0")
+    ctx.nontrivial(rev or equal or dimer or kind in ("auto", "cat"))
     exact = G.bimol_solution(case)
-    judge(case, ctx, exact, "riccati")
+    amp = 1.0
+    if kind == "auto":
+        # logistic growth from a seed w0 of autocatalyst is an *unstable* initial-value problem: a perturbation d of
+        # [B] during the induction period grows like [B] itself, i.e. to at most d*T/w0 (T = a0 + b0) - and the
+        # solver's absolute local tolerance 1e-10*S is such a perturbation.  The agreement tolerance scales with this
+        # condition number (calibration: worst deviation / (S*T/w0) over 9 000 autocatalytic systems <= 1e-9)
+        w0 = case["c0"][fw["prod"][0][0]]
+        amp = max(1.0, sum(case["c0"]) / w0)
+        ctx.label("auto:T/w0%s" % ("<1e2" if amp < 1e2 else "<1e4" if amp < 1e4 else ">=1e4"))
+    judge(case, ctx, exact, "riccati", amp=amp)
 
 
 SUBCHECKS = [
@@ -294,8 +364,16 @@ SUBCHECKS = [
              thorough=10000,
              rule="first-order networks, <= 10 species, <= 12 reactions, constants over 12 decades",
              tolerances=TOLERANCES),
-    SubCheck("bimol", check_bimol, strategy=G.bimolecular(decades=6), quick=450, thorough=14000,
-             rule="A + B -> C, A + B <-> C, 2 A -> C, 2 A <-> C with kf, kb, a0, b0, p0 over 6 decades (a0 = b0 in a "
-                  "quarter of the cases, p0 = 0 in half); oracle: own Riccati closed form at 60 digits",
+    SubCheck("bimol", check_bimol, strategy=G.bimolecular(decades=6), quick=800, thorough=24000,
+             rule="A + B -> C, A + B <-> C, 2 A -> C, 2 A <-> C (half of the cases), A + B -> 2 B / <-> (autocatalytic, "
+                  "a quarter) and A + C -> B + C / <-> (catalysed, a quarter) with kf, kb, a0, b0, p0 over 6 decades "
+                  "(a0 = b0 in a quarter of the cases, p0 = 0 in half); oracle: own Riccati / exponential closed forms "
+                  "at 60 digits",
+             tolerances=TOLERANCES),
+    SubCheck("net_inact", check_net_inact, strategy=G.networks(max_species=7, max_rxns=6, decades=8, inact=True),
+             quick=900, thorough=30000,
+             rule="first-order networks in which steps carry inactive co-reactants '(n Y)' (consumed, zeroth order): "
+                  "<= 7 species, <= 6 reactions, constants over 8 decades; oracle exp(M(t-t0)) c0 with M[Y][X] -= n k; "
+                  "Euler-step clause at (t0, c0) and at a scarce-reagent state",
              tolerances=TOLERANCES),
 ]
